@@ -27,7 +27,7 @@ Count(sq, P(_)) == SumWhere(sq, P, LAMBDA x : 1)
 \* the bag of a sequence, as a function from element to multiplicity
 Bag(sq) == [x \in SeqToSet(sq) |-> Count(sq, LAMBDA y : y = x)]
 
-H0 == [moved |-> <<>>, charged |-> <<>>, adds |-> 0, cancels |-> 0, nmove |-> <<>>, ncharge |-> <<>>]
+H0 == [moved |-> <<>>, charged |-> <<>>, adds |-> 0, cancels |-> 0, nmove |-> <<>>, ncharge |-> <<>>, ldrop |-> {}]
 Bump(f, k, d) == [x \in DOMAIN f \cup {k} |-> (IF x \in DOMAIN f THEN f[x] ELSE 0) + (IF x = k THEN d ELSE 0)]
 BumpAll(f, sq, D(_)) ==
   [x \in DOMAIN f \cup {sq[i][1] : i \in DOMAIN sq} |->
@@ -72,6 +72,10 @@ FinalOK(Hh, e) ==
   \cup {V("C19", "charge_events_sum_to_energy_gained", "vehicle", e.gained[i][1]) : i \in {i \in DOMAIN e.gained :
          LET v == e.gained[i][1] IN
          Abs((IF v \in DOMAIN Hh.charged THEN Hh.charged[v] ELSE 0) - e.gained[i][2]) > (IF v \in DOMAIN Hh.ncharge THEN Hh.ncharge[v] ELSE 0) + 1}}
+     \* every request that was picked up has a drop-off record, unless it is still on board or its vehicle ran dry
+  \cup (IF "picked_all" \notin DOMAIN e THEN {} ELSE
+        {V("C19", "dropoffs_reported_exactly_once", "picked_up_never_dropped_off", r) :
+           r \in SeqToSet(e.picked_all) \ (Hh.ldrop \cup SeqToSet(e.onboard) \cup SeqToSet(e.stranded))})
   \cup (IF e.summary.requests # Hh.adds THEN {V("C19", "summary_requests_equal_add_events", "summary", "requests")} ELSE {})
   \cup (IF e.summary.cancelled # Hh.cancels THEN {V("C19", "summary_cancellations_equal_cancel_events", "summary", "cancelled")} ELSE {})
   \cup (LET total == SumWhere([i \in DOMAIN e.odo |-> e.odo[i]], LAMBDA x : x[1] \in DOMAIN Hh.moved, LAMBDA x : Hh.moved[x[1]])
@@ -83,7 +87,8 @@ HNext(Hh, e) ==
    nmove |-> BumpAll(Hh.nmove, e.log.moves, LAMBDA x : 1),
    charged |-> BumpAll(Hh.charged, e.log.charges, LAMBDA x : x[3]),
    ncharge |-> BumpAll(Hh.ncharge, e.log.charges, LAMBDA x : 1),
-   adds |-> Hh.adds + Len(e.log.adds), cancels |-> Hh.cancels + Len(e.log.cancels)]
+   adds |-> Hh.adds + Len(e.log.adds), cancels |-> Hh.cancels + Len(e.log.cancels),
+   ldrop |-> Hh.ldrop \cup {e.log.dropoffs[i][1] : i \in DOMAIN e.log.dropoffs}]      \* requests the log reports as dropped off
 
 Key(v) == <<v[1], v[2], v[3]>>
 Merge(reg, vs, ln) ==
